@@ -81,3 +81,108 @@ contract(PIO + 'to_pandas_read_csv_args', props=['C16'],
          spec_env=dict(PRIMS, expected_kwargs=expected_kwargs, same_kwargs=same_kwargs), result=T.opaque,
          ensures=[('declared-types-dates-dialect-and-booleans-passed-on',
                    'same_kwargs(result, expected_kwargs(md))')])
+
+
+# ---------------------------------------------------------------------------
+# CSVWMetadata.get_fields_metadata (C16): what each described column becomes.  One column description per path, in
+# every documented spelling: datatype as a plain name or as {base, format}, a separate format key, titles as a text or
+# a list.  The declared type is looked up in the CSVW type table; a date / datetime format is translated (the
+# translation itself is checked by complete enumeration of token sequences elsewhere), a format of any other type is
+# kept as written, a date-like column without a format reads ISO 8601; titles become the alternative names.
+# ---------------------------------------------------------------------------
+from pyvc.contracts import Contract, REGISTRY
+from pyvc.sym import Unsupported, SStr
+from pyvc.ops import strz, PyExc
+import z3 as _z3
+from pyvc.sym import StrS as _StrS
+
+CW = 'tdda/serial/csvw.py::'
+_TRANSLATED = _z3.Function('csvw_date_format_to_md_date_format', _StrS, _StrS)
+_BASES = ('integer', 'string', 'boolean', 'number', 'date', 'datetime', 'dateTime')
+
+
+def _gfm_view(it):
+    mod = extract.load_module('tdda/serial/csvw.py')
+    k = it.path.choose([True] * len(_BASES))
+    base = _BASES[k]
+    form = it.path.choose([True, True, True, True])   # plain name | {base} | {base, format} | plain name + format key
+    fmt = it.fresh_str('format') if form in (2, 3) else None
+    if fmt is not None:
+        from pyvc.sym import slen
+        it.path.assume(slen(fmt.z) > 0)          # a format that is given is not the empty text
+    titles = [None, 'A title', ['A title', 'Another']][it.path.choose([True, True, True])]
+    col = {'name': 'c'}
+    if form == 0:
+        col['datatype'] = base
+    elif form == 1:
+        col['datatype'] = {'base': base}
+    elif form == 2:
+        col['datatype'] = {'base': base, 'format': fmt}
+    else:
+        col['datatype'] = base
+        col['format'] = fmt
+    if titles is not None:
+        col['titles'] = titles
+    it.ghost['gfm'] = dict(base=base, fmt=fmt, titles=titles)
+    o = SObj('CSVWMetadata', {'fields': [], '_columns': [col], '_extensions': it.fresh(T.bool, 'extensions')}, label='self')
+    o.repo_class = mod.classes['CSVWMetadata']
+    o.methods['warn'] = Builtin(lambda it2, self, *a: None, 'warn')
+    o.methods['error'] = Builtin(lambda it2, self, *a: None, 'error')
+    return o
+
+
+def _gfm_entry(it, senv):
+    def field(it2, name, *a, **k):
+        f = SObj('FieldMetadata', {'name': name, 'mtype': None, 'format': None, 'altnames': None, 'description': None,
+                                   '__open__': True}, label='field')
+        f.methods['get_val'] = Builtin(lambda it3, self, d, key, **kw: d.get(key, None), 'get_val')
+        return f
+    it.spec_env['FieldMetadata'] = Builtin(field, 'FieldMetadata')
+
+
+class _GFM(Contract):
+    def verify(self, registry=None, quick=False):
+        reg = dict(REGISTRY if registry is None else registry)
+        c = Contract(CW + 'csvw_date_format_to_md_date_format', params=dict(fmt=None, extensions=None),
+                     effects=lambda it, env: SStr(_TRANSLATED(strz(it, env['fmt']))), result=T.none, assumed=True,
+                     name='csvw_date_format_to_md_date_format',
+                     trusted_note='the format translation is a function of the format (checked by complete enumeration '
+                                  'of token sequences and by strptime round trips in the bounded layer)')
+        c.defaults = {'extensions': False}
+        reg[c.ident] = c
+        return Contract.verify(self, reg, quick)
+
+
+@specfn
+def column_described_as_declared(it, selfobj):
+    g = it.ghost['gfm']
+    fields = selfobj.attrs['fields']
+    if len(fields) != 1:
+        return False
+    f = fields[0]
+    table = extract.load_module('tdda/serial/csvw.py').resolve('CSVW_TYPE_TO_MTYPE')
+    want_type = table.get(g['base'])
+    if f.attrs['name'] != 'c' or f.attrs['mtype'] != want_type:
+        return False
+    datelike = want_type in ('date', 'datetime')
+    fmt = f.attrs['format']
+    if g['fmt'] is None:
+        fmt_ok = (fmt == 'ISO8601') if datelike else (fmt is None)
+    elif datelike:
+        fmt_ok = isinstance(fmt, SStr) and z3.simplify(fmt.z == _TRANSLATED(strz(it, g['fmt'])))
+        fmt_ok = bool(_z3.is_true(fmt_ok))
+    else:
+        fmt_ok = fmt is g['fmt']
+    t = g['titles']
+    want_alt = None if t is None else ([t] if isinstance(t, str) else t)
+    return bool(fmt_ok) and f.attrs['altnames'] == want_alt
+
+
+z3 = _z3
+_gfm = _GFM(CW + 'CSVWMetadata.get_fields_metadata', props=['C16'], params={}, self_view=_gfm_view, on_entry=_gfm_entry,
+            spec_env=dict(PRIMS, column_described_as_declared=column_described_as_declared), result=T.none,
+            ensures=[('the-column-has-its-declared-type-its-format-translated-if-date-like-and-its-titles',
+                      'column_described_as_declared(self)')])
+REGISTRY[_gfm.ident] = _gfm
+_gfm.abstraction = ('one column description per path (7 declared types x 4 spellings of type / format x 3 spellings of '
+                    'titles); the format text is symbolic; the date-format translation is an uninterpreted function')
